@@ -43,6 +43,65 @@ var registry = map[string]factory{}
 
 func Register(pkg string, f func() C, ctors map[string]any) { registry[pkg] = factory{new: f, ctor: ctors} }
 
+type stubEntry struct {
+	typ  reflect.Type
+	ctor func() any
+}
+
+var stubs = map[string]stubEntry{}
+
+// RegisterStub registers a --stub package: its container type and constructor (which must panic).
+func RegisterStub(pkg string, typ reflect.Type, ctor func() any) { stubs[pkg] = stubEntry{typ: typ, ctor: ctor} }
+
+func typeMethods(t reflect.Type) []any {
+	var out []any
+	for i := 0; i < t.NumMethod(); i++ {
+		m := t.Method(i)
+		var in, outs []string
+		for j := 1; j < m.Type.NumIn(); j++ {
+			in = append(in, m.Type.In(j).String())
+		}
+		for j := 0; j < m.Type.NumOut(); j++ {
+			outs = append(outs, m.Type.Out(j).String())
+		}
+		out = append(out, map[string]any{"name": m.Name, "in": strings.Join(in, ","), "out": strings.Join(outs, ",")})
+	}
+	return out
+}
+
+// runStub: method set of the stub type, and every generated method plus the constructor must panic.
+func runStub(s Script, e stubEntry) Result {
+	res := Result{ID: s.ID, Pkg: s.Pkg}
+	ms := typeMethods(e.typ)
+	res.Res = append(res.Res, map[string]any{"methods": ms, "type": e.typ.Elem().Name(), "pkgpath": e.typ.Elem().PkgPath()})
+	res.Res = append(res.Res, guard(func() map[string]any {
+		v := e.ctor()
+		return map[string]any{"returned": fmt.Sprintf("%T", v)}
+	}))
+	recv := reflect.Zero(e.typ) // (*T)(nil): generated stub methods panic before touching the receiver
+	calls := map[string]any{}
+	for i := 0; i < e.typ.NumMethod(); i++ {
+		m := e.typ.Method(i)
+		if _, own := reflect.TypeOf((*container.Container)(nil)).MethodByName(m.Name); own {
+			continue
+		}
+		name := m.Name
+		calls[name] = guard(func() map[string]any {
+			in := []reflect.Value{recv}
+			for j := 1; j < m.Type.NumIn(); j++ {
+				in = append(in, reflect.Zero(m.Type.In(j)))
+			}
+			if m.Type.NumIn() == 2 && m.Type.In(1).String() == "context.Context" {
+				in[1] = reflect.ValueOf(context.Background())
+			}
+			m.Func.Call(in)
+			return map[string]any{"returned": true}
+		})
+	}
+	res.Res = append(res.Res, map[string]any{"calls": calls})
+	return res
+}
+
 type Lit struct {
 	T string `json:"t"`
 	V string `json:"v"`
@@ -322,6 +381,9 @@ func (r *runner) par(op Op, d *obj.Describer) map[string]any {
 
 func runScript(s Script) Result {
 	res := Result{ID: s.ID, Pkg: s.Pkg}
+	if e, isStub := stubs[s.Pkg]; isStub {
+		return runStub(s, e)
+	}
 	f, ok := registry[s.Pkg]
 	if !ok {
 		res.Err = "probe: package not linked: " + s.Pkg
